@@ -14,15 +14,15 @@ EXTENDS Integers, Sequences, FiniteSets, TLC
 
 CONSTANTS Actors, Parent, Roots, KidsOf, MaxRestarts,
           NMsg, SendTo, Toks, TokTarget, TokGraceful,
-          Faults, CrashKinds, Batch, Eager,
-          FixD1, FixD2, FixD4, FixD5, FixD12, FixD13
+          Faults, IFaults, CrashKinds, Batch, Eager,
+          FixD1, FixD2, FixD4, FixD5, FixD12, FixD13, FixD14
 
 VARIABLES reg, inc, restarts, status, ring, mbuf, closed, children, ex, tok,
-          faults, nextMsg, spawned, spret, dead, overlap,
+          faults, ifaults, nextMsg, spawned, spret, dead, overlap,
           log, events, accepted, sentBefore, acted, done, issued
 
 vars == <<reg, inc, restarts, status, ring, mbuf, closed, children, ex, tok,
-          faults, nextMsg, spawned, spret, dead, overlap,
+          faults, ifaults, nextMsg, spawned, spret, dead, overlap,
           log, events, accepted, sentBefore, acted, done, issued>>
 
 P == INSTANCE ActorProps
@@ -37,7 +37,7 @@ User(k)    == [t |-> "user", id |-> k, tok |-> NoTok, g |-> FALSE]
 Pill(t, g) == [t |-> "pill", id |-> 0, tok |-> t, g |-> g]
 
 NoEx == [pc |-> "none", base |-> "none", batch |-> <<>>, i |-> 0, nproc |-> 0, j |-> 0,
-         replay |-> FALSE, cancel |-> NoTok, from |-> "none", todo |-> <<>>, crash |-> FALSE, snap |-> <<>>]
+         replay |-> FALSE, cancel |-> NoTok, from |-> "none", todo |-> <<>>, crash |-> "none", snap |-> <<>>, pv |-> "none"]
 RunEx == [NoEx EXCEPT !.pc = "runloop", !.base = "run"]
 
 Min(x, y) == IF x < y THEN x ELSE y
@@ -48,7 +48,7 @@ Init ==
   /\ status = [a \in Actors |-> "stopped"] /\ ring = [a \in Actors |-> <<>>] /\ mbuf = [a \in Actors |-> <<>>]
   /\ closed = [a \in Actors |-> FALSE] /\ children = [a \in Actors |-> {}]
   /\ ex = [a \in Actors |-> NoEx] /\ tok = [t \in AllToks |-> "unused"]
-  /\ faults = Faults /\ nextMsg = 1 /\ spawned = {} /\ spret = {} /\ dead = FALSE /\ overlap = FALSE
+  /\ faults = Faults /\ ifaults = IFaults /\ nextMsg = 1 /\ spawned = {} /\ spret = {} /\ dead = FALSE /\ overlap = FALSE
   /\ log = <<>> /\ events = <<>> /\ accepted = [a \in Actors |-> {}]
   /\ sentBefore = [t \in Toks |-> {}] /\ acted = [a \in Actors |-> NoTok]
   /\ done = [t \in Toks |-> [at |-> -1, reg |-> FALSE, imm |-> FALSE]] /\ issued = <<>>
@@ -58,11 +58,16 @@ Entry(a, kind, id, mw) == [a |-> a, inc |-> inc[a], kind |-> kind, id |-> id, mw
                            alive |-> {d \in P!Desc(a) : reg[d]}, sreg |-> reg[a],
                            dn |-> {t \in Toks : tok[t] = "done"}]
 
-CanCrash(kind) == faults > 0 /\ kind \in CrashKinds
+(* c: "none" = the handler returns, "plain" = it panics with an ordinary value, "internal" = it panics with an
+   *InternalError (restarted without touching the restart budget) *)
+PanicKinds == {"none", "plain", "internal"}
+CanCrash(kind, c) == c = "none" \/ (kind \in CrashKinds /\ IF c = "plain" THEN faults > 0 ELSE ifaults > 0)
+Spend(c) == /\ faults' = IF c = "plain" THEN faults - 1 ELSE faults
+            /\ ifaults' = IF c = "internal" THEN ifaults - 1 ELSE ifaults
 
 ---------------------------------------------------------------------------
 (* gates and settledness *)
-DeliversStopped(a) == ~(FixD12 /\ restarts[a] = MaxRestarts[a])
+DeliversStopped(a) == ~(FixD12 /\ ex[a].pv = "plain" /\ restarts[a] = MaxRestarts[a])    \* restartsExceeded(v)
 AtGate(a) ==
   LET e == ex[a] IN
   \/ e.pc \in {"init", "started", "deliver", "cl_stopped"}
@@ -98,7 +103,7 @@ Spawn(r) ==
   /\ spawned' = spawned \cup {r}
   /\ reg' = [reg EXCEPT ![r] = TRUE]
   /\ ex' = [ex EXCEPT ![r] = [NoEx EXCEPT !.pc = "prod", !.base = "spawn"]]
-  /\ UNCHANGED <<inc, restarts, status, ring, mbuf, closed, children, tok, faults, nextMsg, spret, dead, overlap,
+  /\ UNCHANGED <<inc, restarts, status, ring, mbuf, closed, children, tok, faults, ifaults, nextMsg, spret, dead, overlap,
                  log, events, accepted, sentBefore, acted, done, issued>>
 
 Send(a) ==
@@ -106,7 +111,7 @@ Send(a) ==
   /\ EnqEffect(a, User(nextMsg), ring, status, ex, events)
   /\ accepted' = IF reg[a] THEN [accepted EXCEPT ![a] = @ \cup {nextMsg}] ELSE accepted
   /\ nextMsg' = nextMsg + 1
-  /\ UNCHANGED <<reg, inc, restarts, mbuf, closed, children, tok, faults, spawned, spret, dead, log, sentBefore, acted, done, issued>>
+  /\ UNCHANGED <<reg, inc, restarts, mbuf, closed, children, tok, faults, ifaults, spawned, spret, dead, log, sentBefore, acted, done, issued>>
 
 StopReq(t) ==
   /\ EnvOK /\ t \in Toks /\ tok[t] = "unused"
@@ -116,37 +121,38 @@ StopReq(t) ==
      /\ tok' = [tok EXCEPT ![t] = IF reg[a] THEN "sent" ELSE "done"]
      /\ done' = IF reg[a] THEN done ELSE [done EXCEPT ![t] = [at |-> Len(log), reg |-> FALSE, imm |-> TRUE]]
      /\ issued' = Append(issued, t)
-  /\ UNCHANGED <<reg, inc, restarts, mbuf, closed, children, faults, nextMsg, spawned, spret, dead, log, accepted, acted>>
+  /\ UNCHANGED <<reg, inc, restarts, mbuf, closed, children, faults, ifaults, nextMsg, spawned, spret, dead, log, accepted, acted>>
 
 ---------------------------------------------------------------------------
 (* process.Start *)
 Alive == ~dead /\ ~overlap
 ExStep(a, e2) == Alive /\ ex' = [ex EXCEPT ![a] = e2]
-Frame == <<reg, inc, restarts, status, ring, mbuf, closed, children, tok, faults, nextMsg, spawned, spret, dead, overlap,
+Frame == <<reg, inc, restarts, status, ring, mbuf, closed, children, tok, faults, ifaults, nextMsg, spawned, spret, dead, overlap,
            log, events, accepted, sentBefore, acted, done, issued>>
 
 Prod(a) ==
   /\ ex[a].pc = "prod"
   /\ inc' = [inc EXCEPT ![a] = @ + 1]
   /\ ExStep(a, [ex[a] EXCEPT !.pc = "init"])
-  /\ UNCHANGED <<reg, restarts, status, ring, mbuf, closed, children, tok, faults, nextMsg, spawned, spret, dead, overlap,
+  /\ UNCHANGED <<reg, restarts, status, ring, mbuf, closed, children, tok, faults, ifaults, nextMsg, spawned, spret, dead, overlap,
                  log, events, accepted, sentBefore, acted, done, issued>>
 
 DoInit(a, c) ==
-  /\ GateOK /\ ex[a].pc = "init" /\ (c => CanCrash("Init"))
+  /\ GateOK /\ ex[a].pc = "init" /\ CanCrash("Init", c)
   /\ log' = Append(log, Entry(a, "Init", 0, TRUE))
-  /\ IF c THEN /\ faults' = faults - 1 /\ UNCHANGED events
-               /\ ExStep(a, [ex[a] EXCEPT !.pc = "recover", !.from = "start"])
-          ELSE /\ UNCHANGED faults /\ events' = Append(events, Ev("Initialized", a, 0))
+  /\ Spend(c)
+  /\ IF c # "none" THEN /\ UNCHANGED events
+                        /\ ExStep(a, [ex[a] EXCEPT !.pc = "recover", !.from = "start", !.pv = c])
+          ELSE /\ events' = Append(events, Ev("Initialized", a, 0))
                /\ ExStep(a, [ex[a] EXCEPT !.pc = "started"])
   /\ UNCHANGED <<reg, inc, restarts, status, ring, mbuf, closed, children, tok, nextMsg, spawned, spret, dead, overlap,
                  accepted, sentBefore, acted, done, issued>>
 
 DoStarted(a, c) ==
-  /\ GateOK /\ ex[a].pc = "started" /\ (c => CanCrash("Started"))
+  /\ GateOK /\ ex[a].pc = "started" /\ CanCrash("Started", c)
   /\ log' = Append(log, Entry(a, "Started", 0, TRUE))
   /\ ExStep(a, [ex[a] EXCEPT !.pc = "spawnkids", !.todo = KidsOf[a], !.crash = c])
-  /\ UNCHANGED <<reg, inc, restarts, status, ring, mbuf, closed, children, tok, faults, nextMsg, spawned, spret, dead, overlap,
+  /\ UNCHANGED <<reg, inc, restarts, status, ring, mbuf, closed, children, tok, faults, ifaults, nextMsg, spawned, spret, dead, overlap,
                  events, accepted, sentBefore, acted, done, issued>>
 
 (* Context.SpawnChild calls inside the Started handler, then the handler returns or panics *)
@@ -154,24 +160,25 @@ SpawnKids(a) ==
   /\ ex[a].pc = "spawnkids"
   /\ LET e == ex[a] IN
      IF e.todo = <<>>
-     THEN /\ IF e.crash
-             THEN /\ faults' = faults - 1 /\ UNCHANGED events
-                  /\ ExStep(a, [e EXCEPT !.pc = "recover", !.from = "start", !.crash = FALSE])
-             ELSE /\ UNCHANGED faults /\ events' = Append(events, Ev("Started", a, 0))
+     THEN /\ Spend(e.crash)
+          /\ IF e.crash # "none"
+             THEN /\ UNCHANGED events
+                  /\ ExStep(a, [e EXCEPT !.pc = "recover", !.from = "start", !.crash = "none", !.pv = e.crash])
+             ELSE /\ events' = Append(events, Ev("Started", a, 0))
                   /\ ExStep(a, [e EXCEPT !.pc = "afterstarted"])
           /\ UNCHANGED <<reg, children, spawned>>
      ELSE LET c == Head(e.todo) IN
           IF c \in spawned
           THEN \* the scripted Started handler spawns each child once (first incarnation); duplicate ids are Registry.tla's subject
                /\ ExStep(a, [e EXCEPT !.todo = Tail(@)])
-               /\ UNCHANGED <<reg, children, faults, spawned, events>>
+               /\ UNCHANGED <<reg, children, faults, ifaults, spawned, events>>
           ELSE /\ reg' = [reg EXCEPT ![c] = TRUE]
                /\ spawned' = spawned \cup {c}
                /\ Alive
                /\ ex' = [ex EXCEPT ![a] = [e EXCEPT !.pc = "spawnwait"],
                                    ![c] = [NoEx EXCEPT !.pc = "prod", !.base = "spawn"]]
                /\ children' = IF FixD13 THEN [children EXCEPT ![a] = @ \cup {c}] ELSE children
-               /\ UNCHANGED <<faults, events>>
+               /\ UNCHANGED <<faults, ifaults, events>>
   /\ UNCHANGED <<inc, restarts, status, ring, mbuf, closed, tok, nextMsg, spret, dead, overlap, log, accepted, sentBefore, acted, done, issued>>
 
 SpawnWait(a) ==
@@ -179,7 +186,7 @@ SpawnWait(a) ==
   /\ children' = IF FixD13 THEN children ELSE [children EXCEPT ![a] = @ \cup {Head(ex[a].todo)}]
   /\ spret' = spret \ {Head(ex[a].todo)}
   /\ ExStep(a, [ex[a] EXCEPT !.pc = "spawnkids", !.todo = Tail(@)])
-  /\ UNCHANGED <<reg, inc, restarts, status, ring, mbuf, closed, tok, faults, nextMsg, spawned, dead, overlap,
+  /\ UNCHANGED <<reg, inc, restarts, status, ring, mbuf, closed, tok, faults, ifaults, nextMsg, spawned, dead, overlap,
                  log, events, accepted, sentBefore, acted, done, issued>>
 
 AfterStarted(a) ==
@@ -203,10 +210,11 @@ Loop(a) ==
   /\ UNCHANGED Frame
 
 DoDeliver(a, c) ==
-  /\ GateOK /\ ex[a].pc = "deliver" /\ (c => CanCrash("user"))
+  /\ GateOK /\ ex[a].pc = "deliver" /\ CanCrash("user", c)
   /\ log' = Append(log, Entry(a, "user", ex[a].batch[ex[a].i].id, TRUE))
-  /\ IF c THEN faults' = faults - 1 /\ ExStep(a, [ex[a] EXCEPT !.pc = "recover", !.from = "invoke"])
-          ELSE UNCHANGED faults /\ ExStep(a, [ex[a] EXCEPT !.pc = "loop", !.i = @ + 1])
+  /\ Spend(c)
+  /\ IF c # "none" THEN ExStep(a, [ex[a] EXCEPT !.pc = "recover", !.from = "invoke", !.pv = c])
+                   ELSE ExStep(a, [ex[a] EXCEPT !.pc = "loop", !.i = @ + 1])
   /\ UNCHANGED <<reg, inc, restarts, status, ring, mbuf, closed, children, tok, nextMsg, spawned, spret, dead, overlap,
                  events, accepted, sentBefore, acted, done, issued>>
 
@@ -221,11 +229,12 @@ DrainSkip(a) ==
 
 DrainDeliver(a, c) ==
   /\ GateOK /\ ex[a].pc = "drain" /\ ex[a].j <= Len(ex[a].batch) /\ ex[a].batch[ex[a].j].t = "user"
-  /\ (c => CanCrash("user"))
+  /\ CanCrash("user", c)
   /\ LET e == ex[a] np == IF FixD5 THEN e.j ELSE e.nproc IN
      /\ log' = Append(log, Entry(a, "user", e.batch[e.j].id, TRUE))
-     /\ IF c THEN faults' = faults - 1 /\ ExStep(a, [e EXCEPT !.pc = "recover", !.from = "drain", !.nproc = np])
-             ELSE UNCHANGED faults /\ ExStep(a, [e EXCEPT !.j = @ + 1, !.nproc = np])
+     /\ Spend(c)
+     /\ IF c # "none" THEN ExStep(a, [e EXCEPT !.pc = "recover", !.from = "drain", !.nproc = np, !.pv = c])
+                      ELSE ExStep(a, [e EXCEPT !.j = @ + 1, !.nproc = np])
   /\ UNCHANGED <<reg, inc, restarts, status, ring, mbuf, closed, children, tok, nextMsg, spawned, spret, dead, overlap,
                  events, accepted, sentBefore, acted, done, issued>>
 
@@ -236,31 +245,38 @@ NewMbuf(a) ==
   ELSE LET rest == SubSeq(e.batch, e.nproc + 1, Len(e.batch)) IN
        IF e.from = "drain" /\ FixD5 THEN <<Pill(e.cancel, TRUE)>> \o rest ELSE rest
 
-RecoverStopped(a) ==
-  /\ GateOK /\ ex[a].pc = "recover" /\ DeliversStopped(a)
+(* the Stopped handler itself may panic (c # "none"): deliverStopped swallows it; before that repair the panic
+   escaped the deferred function and killed the process *)
+RecoverStopped(a, c) ==
+  /\ GateOK /\ ex[a].pc = "recover" /\ DeliversStopped(a) /\ CanCrash("Stopped", c)
   /\ log' = Append(log, Entry(a, "Stopped", 0, FixD2))
+  /\ Spend(c)
   /\ mbuf' = [mbuf EXCEPT ![a] = NewMbuf(a)]
-  /\ ExStep(a, [ex[a] EXCEPT !.pc = "tryrestart", !.cancel = NoTok])
-  /\ UNCHANGED <<reg, inc, restarts, status, ring, closed, children, tok, faults, nextMsg, spawned, spret, dead, overlap,
+  /\ IF c # "none" /\ ~FixD14 THEN dead' = TRUE /\ ExStep(a, NoEx)
+                               ELSE UNCHANGED dead /\ ExStep(a, [ex[a] EXCEPT !.pc = "tryrestart", !.cancel = NoTok])
+  /\ UNCHANGED <<reg, inc, restarts, status, ring, closed, children, tok, nextMsg, spawned, spret, overlap,
                  events, accepted, sentBefore, acted, done, issued>>
 
 RecoverSilent(a) ==
   /\ ex[a].pc = "recover" /\ ~DeliversStopped(a)
   /\ mbuf' = [mbuf EXCEPT ![a] = NewMbuf(a)]
   /\ ExStep(a, [ex[a] EXCEPT !.pc = "tryrestart", !.cancel = NoTok])
-  /\ UNCHANGED <<reg, inc, restarts, status, ring, closed, children, tok, faults, nextMsg, spawned, spret, dead, overlap,
+  /\ UNCHANGED <<reg, inc, restarts, status, ring, closed, children, tok, faults, ifaults, nextMsg, spawned, spret, dead, overlap,
                  log, events, accepted, sentBefore, acted, done, issued>>
 
 TryRestart(a) ==
   /\ ex[a].pc = "tryrestart"
-  /\ IF restarts[a] = MaxRestarts[a]
+  /\ IF ex[a].pv = "internal"
+     THEN /\ ExStep(a, [ex[a] EXCEPT !.pc = "prod", !.pv = "none"])      \* InternalError: sleep, Start; budget untouched, no event
+          /\ UNCHANGED <<restarts, events>>
+     ELSE IF restarts[a] = MaxRestarts[a]
      THEN /\ events' = Append(events, Ev("MaxRestartsExceeded", a, 0))
           /\ ExStep(a, [ex[a] EXCEPT !.pc = "cl_leave", !.cancel = NilTok])
           /\ UNCHANGED restarts
      ELSE /\ restarts' = [restarts EXCEPT ![a] = @ + 1]
           /\ events' = Append(events, Ev("Restarted", a, restarts[a] + 1))
-          /\ ExStep(a, [ex[a] EXCEPT !.pc = "prod"])
-  /\ UNCHANGED <<reg, inc, status, ring, mbuf, closed, children, tok, faults, nextMsg, spawned, spret, dead, overlap,
+          /\ ExStep(a, [ex[a] EXCEPT !.pc = "prod", !.pv = "none"])
+  /\ UNCHANGED <<reg, inc, status, ring, mbuf, closed, children, tok, faults, ifaults, nextMsg, spawned, spret, dead, overlap,
                  log, accepted, sentBefore, acted, done, issued>>
 
 (* process.cleanup *)
@@ -268,7 +284,7 @@ ClLeave(a) ==
   /\ ex[a].pc = "cl_leave"
   /\ children' = IF Parent[a] # "none" THEN [children EXCEPT ![Parent[a]] = @ \ {a}] ELSE children
   /\ ExStep(a, [ex[a] EXCEPT !.pc = "cl_snap"])
-  /\ UNCHANGED <<reg, inc, restarts, status, ring, mbuf, closed, tok, faults, nextMsg, spawned, spret, dead, overlap,
+  /\ UNCHANGED <<reg, inc, restarts, status, ring, mbuf, closed, tok, faults, ifaults, nextMsg, spawned, spret, dead, overlap,
                  log, events, accepted, sentBefore, acted, done, issued>>
 
 ClSnap(a) ==
@@ -284,7 +300,7 @@ ClKids(a) ==
      ELSE LET c == Head(e.snap) IN
           /\ EnqEffect(c, Pill(PTok(c), TRUE), ring, status, [ex EXCEPT ![a] = [e EXCEPT !.pc = "cl_wait"]], events)
           /\ tok' = [tok EXCEPT ![PTok(c)] = IF reg[c] THEN "sent" ELSE "done"]
-  /\ UNCHANGED <<reg, inc, restarts, mbuf, closed, children, faults, nextMsg, spawned, spret, dead,
+  /\ UNCHANGED <<reg, inc, restarts, mbuf, closed, children, faults, ifaults, nextMsg, spawned, spret, dead,
                  log, accepted, sentBefore, acted, done, issued>>
 
 ClWait(a) ==
@@ -298,14 +314,16 @@ ClStop(a) ==
   /\ reg' = [reg EXCEPT ![a] = FALSE]
   /\ closed' = [closed EXCEPT ![a] = TRUE]
   /\ ExStep(a, [ex[a] EXCEPT !.pc = "cl_stopped"])
-  /\ UNCHANGED <<inc, restarts, ring, mbuf, children, tok, faults, nextMsg, spawned, spret, dead, overlap,
+  /\ UNCHANGED <<inc, restarts, ring, mbuf, children, tok, faults, ifaults, nextMsg, spawned, spret, dead, overlap,
                  log, events, accepted, sentBefore, acted, done, issued>>
 
-ClStopped(a) ==
-  /\ GateOK /\ ex[a].pc = "cl_stopped"
+ClStopped(a, c) ==
+  /\ GateOK /\ ex[a].pc = "cl_stopped" /\ CanCrash("Stopped", c)
   /\ log' = Append(log, Entry(a, "Stopped", 0, TRUE))
-  /\ ExStep(a, [ex[a] EXCEPT !.pc = "cl_done"])
-  /\ UNCHANGED <<reg, inc, restarts, status, ring, mbuf, closed, children, tok, faults, nextMsg, spawned, spret, dead, overlap,
+  /\ Spend(c)
+  /\ IF c # "none" /\ ~FixD14 THEN dead' = TRUE /\ ExStep(a, NoEx)
+                               ELSE UNCHANGED dead /\ ExStep(a, [ex[a] EXCEPT !.pc = "cl_done"])
+  /\ UNCHANGED <<reg, inc, restarts, status, ring, mbuf, closed, children, tok, nextMsg, spawned, spret, overlap,
                  events, accepted, sentBefore, acted, done, issued>>
 
 ClDone(a) ==
@@ -321,14 +339,14 @@ ClDone(a) ==
              /\ IF e.replay THEN ExStep(a, [e EXCEPT !.pc = "afterreplay", !.cancel = NoTok]) /\ UNCHANGED spret
                 ELSE IF e.base = "run" THEN ExStep(a, [e EXCEPT !.pc = "runloop", !.cancel = NoTok]) /\ UNCHANGED spret
                 ELSE ExStep(a, NoEx) /\ spret' = spret \cup {a}
-  /\ UNCHANGED <<reg, inc, restarts, status, ring, mbuf, closed, children, faults, nextMsg, spawned, overlap,
+  /\ UNCHANGED <<reg, inc, restarts, status, ring, mbuf, closed, children, faults, ifaults, nextMsg, spawned, overlap,
                  log, accepted, sentBefore, issued>>
 
 AfterReplay(a) ==
   /\ ex[a].pc = "afterreplay"
   /\ mbuf' = [mbuf EXCEPT ![a] = <<>>]
   /\ ExStep(a, [ex[a] EXCEPT !.pc = "open", !.replay = FALSE])
-  /\ UNCHANGED <<reg, inc, restarts, status, ring, closed, children, tok, faults, nextMsg, spawned, spret, dead, overlap,
+  /\ UNCHANGED <<reg, inc, restarts, status, ring, closed, children, tok, faults, ifaults, nextMsg, spawned, spret, dead, overlap,
                  log, events, accepted, sentBefore, acted, done, issued>>
 
 (* inbox.Start(p): CAS stopped->starting, idle, schedule *)
@@ -344,7 +362,7 @@ Open(a) ==
      ELSE /\ UNCHANGED <<status, overlap>>
           /\ IF ex[a].base = "run" THEN ExStep(a, [ex[a] EXCEPT !.pc = "runloop"]) /\ UNCHANGED spret
              ELSE ExStep(a, NoEx) /\ spret' = spret \cup {a}
-  /\ UNCHANGED <<reg, inc, restarts, ring, mbuf, closed, children, tok, faults, nextMsg, spawned, dead,
+  /\ UNCHANGED <<reg, inc, restarts, ring, mbuf, closed, children, tok, faults, ifaults, nextMsg, spawned, dead,
                  log, events, accepted, sentBefore, acted, done, issued>>
 
 (* Inbox.run / process *)
@@ -356,23 +374,23 @@ RunLoop(a) ==
           /\ ExStep(a, [RunEx EXCEPT !.pc = "loop", !.batch = SubSeq(ring[a], 1, n), !.i = 1])
           /\ ring' = [ring EXCEPT ![a] = SubSeq(@, n + 1, Len(@))]
           /\ UNCHANGED status
-  /\ UNCHANGED <<reg, inc, restarts, mbuf, closed, children, tok, faults, nextMsg, spawned, spret, dead, overlap,
+  /\ UNCHANGED <<reg, inc, restarts, mbuf, closed, children, tok, faults, ifaults, nextMsg, spawned, spret, dead, overlap,
                  log, events, accepted, sentBefore, acted, done, issued>>
 
 Next == \/ \E r \in Roots : Spawn(r)
         \/ \E a \in Actors : Send(a)
         \/ \E t \in Toks : StopReq(t)
         \/ \E a \in Actors : Prod(a)
-        \/ \E a \in Actors, c \in BOOLEAN : DoInit(a, c)
-        \/ \E a \in Actors, c \in BOOLEAN : DoStarted(a, c)
+        \/ \E a \in Actors, c \in PanicKinds : DoInit(a, c)
+        \/ \E a \in Actors, c \in PanicKinds : DoStarted(a, c)
         \/ \E a \in Actors : SpawnKids(a)
         \/ \E a \in Actors : SpawnWait(a)
         \/ \E a \in Actors : AfterStarted(a)
         \/ \E a \in Actors : Loop(a)
-        \/ \E a \in Actors, c \in BOOLEAN : DoDeliver(a, c)
+        \/ \E a \in Actors, c \in PanicKinds : DoDeliver(a, c)
         \/ \E a \in Actors : DrainSkip(a)
-        \/ \E a \in Actors, c \in BOOLEAN : DrainDeliver(a, c)
-        \/ \E a \in Actors : RecoverStopped(a)
+        \/ \E a \in Actors, c \in PanicKinds : DrainDeliver(a, c)
+        \/ \E a \in Actors, c \in PanicKinds : RecoverStopped(a, c)
         \/ \E a \in Actors : RecoverSilent(a)
         \/ \E a \in Actors : TryRestart(a)
         \/ \E a \in Actors : ClLeave(a)
@@ -380,7 +398,7 @@ Next == \/ \E r \in Roots : Spawn(r)
         \/ \E a \in Actors : ClKids(a)
         \/ \E a \in Actors : ClWait(a)
         \/ \E a \in Actors : ClStop(a)
-        \/ \E a \in Actors : ClStopped(a)
+        \/ \E a \in Actors, c \in PanicKinds : ClStopped(a, c)
         \/ \E a \in Actors : ClDone(a)
         \/ \E a \in Actors : AfterReplay(a)
         \/ \E a \in Actors : Open(a)
@@ -398,11 +416,13 @@ C04_Lifecycle   == P!Lifecycle(log)
 C04_SpawnRet    == \A a \in spret : (\E i \in 1..Len(log) : log[i].a = a /\ log[i].kind = "Started") \/ ~reg[a]
 C05_AtMostOnce  == P!AtMostOnce(log)
 C05_InOrder     == P!InOrder(log)
+C05_Fresh       == P!StoppedLast(log) /\ P!IncMonotone(log) /\ P!IncOrder(log)
 C05_Numbered    == P!RestartsNumbered(events)
 C05_Complete    == Quiet => \A a \in Actors : (reg[a] /\ P!NotStopping(issued, events, a)) => \A k \in accepted[a] : P!Handled(log, a, k)
 C06_Alive       == ~dead
 C06_Bounded     == P!RestartsBounded(events) /\ \A a \in Actors : restarts[a] <= MaxRestarts[a]
-C06_Clean       == Quiet => \A a \in Actors : P!Exhausted(events, a) => (~reg[a] /\ \A d \in P!Desc(a) : ~reg[d])
+C06_Clean       == Quiet => P!CleanAfterExhaustion(events, issued, reg, FALSE)
+C06_CleanKF     == Quiet => P!CleanAfterExhaustion(events, issued, reg, TRUE)
 C07_DoneAfterStop == P!DoneAfterStop(log, done, FALSE)
 C07_DoneAfterStopKF == P!DoneAfterStop(log, done, TRUE)
 C07_Drained     == P!Drained(log, events, done, issued, sentBefore)
@@ -411,6 +431,7 @@ C07_DrainedActed == \A t \in Toks : (done[t].at >= 0 /\ TokGraceful[t] /\ acted[
 C07_ActsOnSound == \A t \in Toks : (done[t].at >= 0 /\ P!ActsOn(issued, events, done, t)) => acted[TokTarget[t]] = t
 C07_AllDone     == Quiet => P!AllDone(done, issued, events, FALSE)
 C07_AllDoneKF   == Quiet => P!AllDone(done, issued, events, TRUE)
+C08_Terminal    == Quiet => P!TerminalStopped(log, issued, events, reg, TRUE)
 C08_KidsFirst   == P!KidsFirst(log, issued, events, FALSE)
 C08_KidsFirstKF == P!KidsFirst(log, issued, events, TRUE)
 C08_Children    == P!ChildrenExact(log, issued, events)
